@@ -5,7 +5,8 @@
       additions of [prove_ready] / the overdue test do not overflow);
     * the planned crossing values sum below [2^64] ([replan_required] sums in [u64]);
     * threshold in [0,100], bucket interval a non-zero [u32];
-    * dependencies need NOT exist and the graph need NOT be acyclic: the theorems hold without. *)
+    * dependencies need NOT exist and the graph need NOT be acyclic: the theorems hold without;
+    * cases of the persistence stream hold their rows in strictly increasing id order. *)
 From V.Lib Require Import Base.
 From V.C18 Require Import Model Spec Corr.
 Local Open Scope Z_scope.
@@ -45,5 +46,16 @@ Definition wf_event (ev : event) : bool :=
   | _ => true
   end.
 
+(** rows in strictly increasing id order (the order the SQLite store returns them in) *)
+Fixpoint increasing (l : list Z) : bool :=
+  match l with
+  | x :: ((y :: _) as r) => (x <? y) && increasing r
+  | _ => true
+  end.
+
+(** a case of the persistence stream holds its rows in id order: the round-trip theorem
+    ([C18_store_roundtrip]) needs it, and the store returns rows by id *)
 Definition wf_case (c : case) : bool :=
-  let '(Case pre ev _ _ _) := c in wf_state pre && wf_event ev.
+  let '(Case pre ev post _ p) := c in
+  wf_state pre && wf_event ev
+  && match p with PNone => true | PRt _ _ _ => increasing (map t_id (m_txs post)) end.
